@@ -143,6 +143,36 @@ def run(R: vlib.Run):
                                            dict(base, got_len=int(r.data.shape[0]), want_len=outlen, got=np.asarray(r.data).tolist()[:12], want=wantd.tolist()[:12]))
                                 if k == "ok" and nbits == 8:
                                     corr.append(("dedisperse", x, splits, gulp, start, nsamps, md, delays.tolist(), np.asarray(r.data).astype(np.int64).tolist()))
+        # ---- open-ended selections: nsamps left to its default (None) with start > 0 ------------------------
+        for nbits in (8, 32, 2):
+            nch = NCH[nbits]; N = Nmax
+            x = nprng.integers(0, 1 << min(nbits, 8), (N, nch))
+            paths = filutil.write_fil_set(os.path.join(d, f"o{nbits}"), x, nbits, [N // 2], fch1=400.0, foff=-20.0, tsamp=0.001)
+            fil = FilReader(paths)
+            dm1 = next((float(v) for v in np.linspace(0.02, 1.2, 40) if 0 < int(fil.header.get_dmdelays(float(v)).max()) < 3), 0.0)
+            for start in range(0, N - 1):
+                want = x[start:].astype(np.float64); ns = N - start
+                for gulp in sorted(set([1, 2, max(1, ns - 1), ns + 2])):
+                    base = {"nbits": nbits, "nchans": nch, "N": N, "start": start, "nsamps": None, "gulp": gulp}
+                    R.case(("open", nbits, start, gulp), nontrivial=start > 0, regime="open_ended")
+                    k, r = call(fil.collapse, gulp=gulp, start=start, quiet=True)
+                    if k != "ok" or r.data.shape != (ns,) or not np.array_equal(r.data, want.sum(1)):
+                        R.fail("collapse-open-ended", "collapse(start>0, nsamps=None) != sum over channels of samples [start, N)", dict(base, res=str(r)[:80]))
+                    k, r = call(fil.bandpass, gulp=gulp, start=start, quiet=True)
+                    if k != "ok" or not np.allclose(r.data, want.mean(0), rtol=2e-6, atol=0):
+                        R.fail("bandpass-open-ended", "bandpass(start>0, nsamps=None) != mean over time of samples [start, N)", dict(base, res=str(getattr(r, "data", r))[:80], want=want.mean(0).tolist()))
+                    k, r = call(fil.read_chan, 1 % nch, gulp=gulp, start=start, quiet=True)
+                    if k != "ok" or r.data.shape != (ns,) or not np.array_equal(r.data, want[:, 1 % nch]):
+                        R.fail("read_chan-open-ended", "read_chan(start>0, nsamps=None) != the channel's column of samples [start, N)", dict(base, res=str(r)[:80]))
+                    k, r = call(fil.compute_stats, gulp=gulp, start=start, quiet=True)
+                    if k != "ok" or not np.allclose(fil.chan_stats.var, want.var(0), rtol=1e-4, atol=1e-4) or not np.array_equal(fil.chan_stats.moments["count"], np.full(nch, ns)):
+                        R.fail("stats-open-ended", "compute_stats(start>0, nsamps=None) differs from the moments of samples [start, N)", dict(base, res=str(r)[:80]))
+                    delays = fil.header.get_dmdelays(dm1).astype(int); md = int(delays.max())
+                    if md < ns:
+                        k, r = call(fil.dedisperse, dm1, gulp=gulp, start=start, quiet=True)
+                        wd = sum(want[delays[c]:delays[c] + ns - md, c] for c in range(nch))
+                        if k != "ok" or r.data.shape != (ns - md,) or not np.array_equal(r.data, wd):
+                            R.fail("dedisperse-open-ended", "dedisperse(start>0, nsamps=None) != sum_c x[t+d_c][c] over samples [start, N)", dict(base, dm=dm1, res=str(r)[:80]))
         # ---- correspondence --------------------------------------------------------------------
         rng.shuffle(corr)
         corr = corr[: (600 if R.tier == "quick" else 3000)]
